@@ -547,6 +547,41 @@ pub fn run(rep: &Report) -> i32 {
             });
         }
     });
+    // structural near misses (one AST edit at every site of the small static programs) through the program entry
+    // point, in process: a panic is caught and reported; these texts contain no huge size literal
+    {
+        let bases: Vec<(String, crate::lang::Program)> = crate::families::static_family().into_iter().filter(|(n, _)| !crate::families::is_large(n)).collect();
+        rep.set("structural_near_miss_bases", json!(bases.iter().map(|b| b.0.clone()).collect::<Vec<_>>()));
+        crate::explore::par_for(&bases, rep, 1, |_, (name, base)| {
+            for (op, m) in crate::mutate::near_misses(base) {
+                if rep.out_of_time() {
+                    break;
+                }
+                let text = m.render();
+                rep.state();
+                rep.transition(1);
+                rep.eval(1);
+                rep.trace(1);
+                let r = crate::drive::guard(|| {
+                    simfony::TemplateProgram::new(text.as_str()).and_then(|t| {
+                        let args: Vec<(String, crate::lang::Val, crate::lang::Ty)> = t.parameters().iter().map(|(n, ty)| { let ty = crate::drive::from_sim_ty(ty); (n.as_inner().to_string(), crate::refmodel::zero_val(&ty), ty) }).collect();
+                        t.instantiate(crate::drive::argument_map(&args), false).map(|_| ())
+                    })
+                });
+                match r {
+                    Ok(Ok(())) => rep.class("near-miss:ok"),
+                    Ok(Err(_)) => {
+                        rep.class("near-miss:err");
+                        rep.nontrivial(1);
+                    }
+                    Err(p) => {
+                        rep.class("panic");
+                        rep.violation(format!("C06:panic:program:{}", crate::drive::panic_site(&p)), format!("program panicked: {p} ({op} on {name})"), json!({"kind": "text", "entry": "program", "text": text, "ty": "", "expect": "", "observed": "panic"}));
+                    }
+                }
+            }
+        });
+    }
     let done = next.load(Ordering::Relaxed).min(jobs.len());
     if done < jobs.len() {
         rep.cap(format!("stopped after {done} of {} jobs", jobs.len()));
